@@ -214,6 +214,9 @@ fn histories(thorough: bool) -> Vec<Hist> {
     // the deterministic output too
     v.push(mk("default", Wl::W1, vec![], vec![(12, Op::Unroutable(SERVER, 1200)), (16, Op::Unroutable(CLIENT, 300)), (40, Op::Unroutable(SERVER, 60))], "unroutable-datagrams"));
     v.push(mk("cidlife", Wl::W2, vec![], vec![(10, Op::Unroutable(SERVER, 900)), (30, Op::Unroutable(SERVER, 900))], "unroutable-datagrams"));
+    // the peer goes silent while connection IDs keep expiring (timers must keep settling)
+    v.push(mk("cidlife", Wl::W1, vec![], vec![(30, Op::Blackhole(SERVER))], "server-silent@30"));
+    v.push(mk("cidlife", Wl::W2, vec![], vec![(24, Op::Blackhole(CLIENT))], "client-silent@24"));
     // every k=1 deviation history of W1/W2 in the first 30 datagrams
     let n = if thorough { 40 } else { 20 };
     for wl in [Wl::W1, Wl::W2] {
@@ -252,7 +255,7 @@ pub fn main(args: &Args) -> ! {
             runs.push(Run { h: i, shift: Duration::from_secs(sh), extra: None, drained_part: false });
         }
         // insertion points only for the first histories in quick (they dominate the cost)
-        let ins = thorough || i < 29;
+        let ins = thorough || i < 31;
         if ins {
             let steps = base[i].1.min(if thorough { 400 } else { 120 });
             for j in 0..steps {
@@ -262,7 +265,7 @@ pub fn main(args: &Args) -> ! {
                 }
             }
         }
-        if i < 29 || thorough {
+        if i < 31 || thorough {
             runs.push(Run { h: i, shift: Duration::ZERO, extra: None, drained_part: true });
         }
     }
